@@ -32,8 +32,14 @@ def abstract_jumps(hist, chain):
     whole = [s for seg in flat for s in seg]
     text = c03.abstract_path(whole).split(' ; ') if whole else []
     pos = 0
-    for seg in flat:
-        parts.append(' ; '.join(text[pos:pos + len(seg)]))
+    for (a, b), seg in zip(zip(chain, chain[1:]), flat):
+        part = ' ; '.join(text[pos:pos + len(seg)])
+        # a single jump whose evolutions net to no model change (the
+        # commands then see "no upgrade required" - C04-F04)
+        if len(chain) > 2 and seg and S.canon_unordered(hist.specs[a]) == \
+                S.canon_unordered(hist.specs[b]):
+            part += ' {jump-nets-to-no-change}'
+        parts.append(part)
         pos += len(seg)
     text = ' || '.join(parts)
     if c03.has_name_reuse(whole):
@@ -100,24 +106,56 @@ class HistoryRun(object):
         self.clean = {}
         for i in range(h.n):
             for k in range(i + 1, h.n + 1):
-                if k == i + 1:
-                    self.clean[(i, k)] = True
+                self.clean[(i, k)] = True
+            if i + 2 > h.n:
+                continue
+            # rows as the exploration has them: inserted at start point i
+            ent_i = R.fresh(h.specs[i])
+            B.restore(ent_i['image'], 'default')
+            RW.populate(h.specs[i], self.rows, 'default')
+            img_i, sig_i = B.snapshot('default'), ent_i['sig']
+            stepwise = {i: (img_i, sig_i)}
+            img, sg = img_i, sig_i
+            for t in range(i, h.n):
+                label, el, mjs = h.steps[t]
+                B.restore(img, 'default')
+                B.reset_globals()
+                r1 = D.d1(R.load_sig(sg), [(label, mj) for mj in mjs])
+                if not r1.ok:
+                    break
+                img, sg = B.snapshot('default'), r1.sig.serialize()
+                stepwise[t + 1] = (img, sg)
+            for k in range(i + 2, h.n + 1):
+                if k not in stepwise:
                     continue
-                B.restore(self.sw[i][0], 'default')
+                B.restore(img_i, 'default')
                 B.reset_globals()
                 steps = []
                 for (label, el, mjs) in h.steps[i:k]:
                     steps += [(label, mj) for mj in mjs]
-                res = D.d1(R.load_sig(self.sw[i][1]), steps)
+                res = D.d1(R.load_sig(sig_i), steps)
                 good = res.ok
                 if good:
                     got = (O.schema_dump('default'), O.row_dump('default'))
-                    B.restore(self.sw[k][0], 'default')
+                    B.restore(stepwise[k][0], 'default')
                     want = (O.schema_dump('default'), O.row_dump('default'))
                     good = got == want
                 if good:
                     good, _d = R.sig_equal(res.sig,
-                                           R.load_sig(self.sw[k][1]))
+                                           R.load_sig(stepwise[k][1]))
+                if good:
+                    # the same jump on the rows inserted at V0 and carried
+                    # along (what a chain that started earlier sees)
+                    B.restore(self.sw[i][0], 'default')
+                    B.reset_globals()
+                    res = D.d1(R.load_sig(self.sw[i][1]), steps)
+                    good = res.ok
+                    if good:
+                        got = (O.schema_dump('default'),
+                               O.row_dump('default'))
+                        B.restore(self.sw[k][0], 'default')
+                        good = got == (O.schema_dump('default'),
+                                       O.row_dump('default'))
                 if not good and not self.delegated_to_c03(i, steps):
                     # the divergence is not a recorded C03 finding: the jump
                     # stays in and is judged by this check's own oracle
@@ -166,8 +204,11 @@ class HistoryRun(object):
             res = EB.upgrade(self.driver)
             self.stats['upgrade_runs'] += 1
             if not res.ok:
+                what = res.exc_type
+                if what == 'CommandError':
+                    what += ':' + c03.norm_msg(str(res.exc))[:80]
                 self.add('C04|fresh-install-fails|%s|%s' % (
-                    res.exc_type, self.driver), [i],
+                    what, self.driver), [i],
                     {'error': str(res.exc)[:300]})
                 continue
             RW.populate(h.specs[i], self.rows, 'default')
@@ -250,6 +291,13 @@ class HistoryRun(object):
                     continue
                 h.install(k)
                 B.restore(image, 'default')
+                # evolutions of earlier versions that this database never
+                # recorded (left behind by an earlier run of this chain):
+                # they are pending again in this run
+                recorded = set((a, l) for (a, l, _v) in (
+                    O.bookkeeping_dump('default')['evolutions'] or []))
+                stale = [st for st in h.steps[:j]
+                         if (st[0], st[1]) not in recorded]
                 res = EB.upgrade(self.driver)
                 self.stats['upgrade_runs'] += 1
                 if not res.ok:
@@ -260,8 +308,12 @@ class HistoryRun(object):
                         # the inserted rows conflict with the new rule
                         self.stats['data_conflicts'] += 1
                         continue
+                    jumps = abstract_jumps(h, [j, k])
+                    if stale:
+                        jumps += '|after-%d-earlier-evolutions-were-left-' \
+                            'unrecorded' % len(stale)
                     self.add('C04|upgrade-fails|%s|%s|%s' % (
-                        c03.norm_msg(msg), abstract_jumps(h, [j, k]),
+                        c03.norm_msg(msg), jumps,
                         self.driver), [j, k],
                         {'error': str(res.exc)[:400],
                          'stderr': getattr(res, 'stderr', '')[:300]})
